@@ -62,14 +62,16 @@ theorem Hit.cons {ts : List PyTok} {a : Str} (h : Hit ts a) (t : PyTok) : Hit (t
 theorem refify_append (xs ys : List PyTok) : refify (xs ++ ys) = refify xs ++ refify ys := by
   simp [refify]
 
-theorem Hit.refify {ts : List PyTok} {a : Str} (h : Hit ts a) : Hit (refify ts) a := by
+/-- the textual replacement sends each scanned call name to a scanned call name -/
+theorem replaceRC_scanName {n : Str} (hn : n ∈ Gen.scanNames) : replaceRC n ∈ Gen.scanNames := by
+  have h : n = nmR ∨ n = nmC ∨ n = nmREF := by simpa [Gen.scanNames, nmR, nmC, nmREF] using hn
+  rcases h with rfl | rfl | rfl <;> decide
+
+/-- the call shape survives `refify` when the textual replacement leaves the address text alone -/
+theorem Hit.refify {ts : List PyTok} {a : Str} (h : Hit ts a) (ha : replaceRC a = a) : Hit (refify ts) a := by
   obtain ⟨p, q, n, hn, rfl⟩ := h
-  refine ⟨Formula.refify p, Formula.refify q, if n = nmR ∨ n = nmC then nmREF else n, ?_, ?_⟩
-  · split
-    · decide
-    · exact hn
-  · simp only [Formula.refify, List.map_append, List.map_cons]
-    split <;> rfl
+  refine ⟨Formula.refify p, Formula.refify q, replaceRC n, replaceRC_scanName hn, ?_⟩
+  simp only [Formula.refify, List.map_append, List.map_cons, ha]
 
 theorem Hit.wrap {ts : List PyTok} {a : Str} (h : Hit ts a) (ctx : Ctx) : Hit (wrap ctx ts) a := by
   unfold Formula.wrap
@@ -105,9 +107,9 @@ theorem strip_refify_inter (X : List PyTok) :
     stripRefStr (refify (.name nmR :: .lpar :: .name nmStr :: .lpar :: (X ++ [.rpar, .rpar]))) = refify X := by
   have h1 : refify (.name nmR :: .lpar :: .name nmStr :: .lpar :: (X ++ [.rpar, .rpar]))
       = .name nmREF :: .lpar :: .name nmStr :: .lpar :: (refify X ++ [.rpar, .rpar]) := by
-    simp only [refify, List.map_cons, List.map_append, List.map_nil]
-    have a2 : ¬ (nmStr = nmR ∨ nmStr = nmC) := by decide
-    simp [a2]
+    have a1 : replaceRC nmR = nmREF := by decide
+    have a2 : replaceRC nmStr = nmStr := by decide
+    simp only [refify, List.map_cons, List.map_append, List.map_nil, a1, a2]
   rw [h1]
   simp only [stripRefStr, if_true, dropLast2, and_self]
 
@@ -126,6 +128,37 @@ theorem refOperand_written (cx : RefCtx) : ∀ e, refOperand cx e = true → wri
   | .bin .colon _ _, h | .bin .comma _ _, h | .bin .pow _ _, h | .bin .mul _ _, h | .bin .div _ _, h
   | .bin .add _ _, h | .bin .sub _ _, h | .bin .concat _ _, h | .bin .eq _ _, h | .bin .lt _ _, h
   | .bin .gt _ _, h | .bin .le _ _, h | .bin .ge _ _, h | .bin .ne _ _, h => by simp [refOperand] at h
+
+/-- every address written in a reference operand is left alone by the textual replacement -/
+theorem refOperand_fixed (cx : RefCtx) : ∀ e, refOperand cx e = true → ∀ a ∈ refsEmitted cx e, replaceRC a = a
+  | .operand (.range t), h, a, ha => by
+    simp only [refOperand] at h
+    simp only [refsEmitted] at ha
+    cases hr : resolve cx t with
+    | one x =>
+      rw [hr] at h ha
+      simp only [List.mem_singleton] at ha
+      subst ha
+      simp only [Bool.and_eq_true, refixed, decide_eq_true_eq] at h
+      exact h.1
+    | multi _ => rw [hr] at h; simp at h
+    | nameErr => rw [hr] at h; simp at h
+    | raise => rw [hr] at h; simp at h
+  | .bin .space l r, h, a, ha => by
+    simp only [refOperand, Bool.and_eq_true] at h
+    simp only [refsEmitted, List.mem_append] at ha
+    rcases ha with ha | ha
+    · exact refOperand_fixed cx l h.1 a ha
+    · exact refOperand_fixed cx r h.2 a ha
+  | .operand (.number _), h, _, _ | .operand (.text _), h, _, _ | .operand (.logical _), h, _, _
+  | .operand (.error _), h, _, _
+  | .operand .empty, h, _, _ | .neg _, h, _, _ | .pct _, h, _, _ | .func _ _, h, _, _ => by simp [refOperand] at h
+  | .bin .colon _ _, h, _, _ | .bin .comma _ _, h, _, _ | .bin .pow _ _, h, _, _ | .bin .mul _ _, h, _, _
+  | .bin .div _ _, h, _, _
+  | .bin .add _ _, h, _, _ | .bin .sub _ _, h, _, _ | .bin .concat _ _, h, _, _ | .bin .eq _ _, h, _, _
+  | .bin .lt _ _, h, _, _
+  | .bin .gt _ _, h, _, _ | .bin .le _ _, h, _, _ | .bin .ge _ _, h, _, _ | .bin .ne _ _, h, _, _ => by
+    simp [refOperand] at h
 
 theorem hit_range (cx : RefCtx) (ctx : Ctx) (t : Str) (a : Str) (h : a ∈ refsEmitted cx (.operand (.range t))) :
     Hit (emitN cx ctx (.operand (.range t))) a := by
@@ -171,7 +204,9 @@ theorem hitE (cx : RefCtx) (a : Str) : ∀ e, Emittable cx e → a ∈ refsEmitt
     | one x =>
       have : emitN cx .funcArg (.operand (.range t)) = emitAddr x := by simp [emitN, hres, emitResolved]
       rw [this] at h0 ⊢
-      rw [strip_refify_addr]; exact h0.refify
+      have hfix : replaceRC a = a :=
+        refOperand_fixed cx (.operand (.range t)) (by simpa [refOperand] using hr) a h
+      rw [strip_refify_addr]; exact h0.refify hfix
     | multi _ => rw [hres] at hr; simp at hr
     | nameErr => rw [hres] at hr; simp at hr
     | raise => rw [hres] at hr; simp at hr
@@ -206,18 +241,27 @@ theorem hitE (cx : RefCtx) (a : Str) : ∀ e, Emittable cx e → a ∈ refsEmitt
       · exact ((hitE cx a l hwl.1 h).1 c1).post _
       · exact (((hitE cx a r hwl.2 h).1 c2).cons o).pre _
     refine ⟨fun ctx => ?_, fun hr => ?_⟩
-    · cases op <;> simp only [emitN]
-      all_goals first
-        | exact (hmid _ _ _).wrap ctx
-        | exact (((hmid _ _ _).refify.ctx [.name nmR, .lpar, .name nmStr, .lpar] [.rpar, .rpar])).wrap ctx
+    · cases op
+      case colon => simp [written] at hw0
+      case space =>
+        have hro : refOperand cx (.bin .space l r) = true := by simpa [written, refOperand] using hw0
+        have hfix : replaceRC a = a :=
+          refOperand_fixed cx _ hro a (by simpa [refsEmitted, List.mem_append] using h)
+        simp only [emitN]
+        exact (((hmid _ _ _).refify hfix).ctx [.name nmR, .lpar, .name nmStr, .lpar] [.rpar, .rpar]).wrap ctx
+      all_goals
+        simp only [emitN]
+        exact (hmid _ _ _).wrap ctx
     · by_cases hop : op = .space
       · subst hop
         have e1 : emitN cx .funcArg (.bin .space l r) =
             .name nmR :: .lpar :: .name nmStr :: .lpar ::
               (refify (emitN cx (.opChild false) l ++ .op .bitand :: emitN cx (.opChild false) r) ++ [.rpar, .rpar]) := by
           simp [emitN, Formula.wrap, Ctx.isOp, InOp.pyOp]
+        have hfix : replaceRC a = a :=
+          refOperand_fixed cx _ hr a (by simpa [refsEmitted, List.mem_append] using h)
         rw [e1, strip_refify_inter]
-        exact (hmid _ _ _).refify.refify
+        exact ((hmid _ _ _).refify hfix).refify hfix
       · cases op <;> first | exact absurd rfl hop | (simp [refOperand] at hr)
   | .func name args, hw, h => by
     have hw0 : written cx (.func name args) = true := by rcases hw with ⟨t, ht⟩ | hw <;> simp_all
@@ -237,16 +281,18 @@ theorem hitE (cx : RefCtx) (a : Str) : ∀ e, Emittable cx e → a ∈ refsEmitt
       have na : pyFuncBase name ≠ nmArray := by rcases hrc with e | e <;> rw [e] <;> decide
       have nb : pyFuncBase name ≠ nmArrayRow := by rcases hrc with e | e <;> rw [e] <;> decide
       rw [if_neg na, if_neg nb, if_pos hrc]
-      simp only [Bool.and_eq_true, decide_eq_true_eq, List.all_eq_true] at hw0
+      simp only [Bool.and_eq_true, decide_eq_true_eq, List.all_eq_true, Bool.or_eq_true] at hw0
       match args, hw0, h with
-      | [], _, h =>
+      | [], hw0, h =>
         simp only [refsEmittedHead, List.mem_singleton] at h
         subst h
         simp only [buildRefN]
-        exact ((hit_emitAddr (ownAddr cx)).refify.ctx [.name _, .lpar] [.rpar])
+        have hfix : replaceRC (ownAddr cx).address = (ownAddr cx).address := by
+          simpa [refixed] using hw0.2
+        exact (((hit_emitAddr (ownAddr cx)).refify hfix).ctx [.name _, .lpar] [.rpar])
       | [e], hw0, h =>
         simp only [refsEmittedHead] at h
-        have hro : refOperand cx e = true := hw0.2 e (by simp)
+        have hro : refOperand cx e = true := hw0.1.2 e (by simp)
         have ih := (hitE cx a e (Or.inr (refOperand_written cx e hro)) h).2 hro
         simp only [buildRefN]
         exact ih.ctx [.name _, .lpar] [.rpar]
@@ -396,6 +442,7 @@ theorem refVal_sub (cx : RefCtx) : ∀ e, refOperand cx e = true → ∀ a, refV
       simp only at hr hv
       rw [hv] at hr
       simp only [Bool.and_eq_true, Bool.or_eq_true, decide_eq_true_eq, ne_eq] at hr
+      replace hr := hr.2
       refine ⟨⟨by simpa using hr.1, ?_⟩, by simp, ?_⟩
       · rcases hr.2 with h | h
         · exact Or.inl h
